@@ -195,6 +195,32 @@ def _run(op, f):
     if op.startswith('disc_'):
         g = DiscreteFunc(arr(f[0]), arr(f[1]), arr(f[2])); rest = f[3:]
         return _disc_op(op[5:], g, rest)
+    if op == 'round_sci':
+        p = int(f[0][0])
+        return [[float(('{0:.%de}' % p).format(float(v))) for v in f[1]]]
+    if op == 'save_load':
+        import os
+        from .core import BUILD
+        os.makedirs(BUILD, exist_ok=True)
+        path = os.path.join(BUILD, 'sl_%d.txt' % os.getpid())
+        p, ign, ncom = int(f[0][0]), bool(f[0][1]), int(f[0][2])
+        trains = [SpikeTrain(arr(t), [0.0, 1e9]) for t in f[1:]]
+        seps = [' ', ',', ';', '\t', ', ']
+        sep = seps[(p + len(trains)) % len(seps)]
+        com = ['#', '%', '//'][(p + ncom) % 3]
+        try:
+            spk.save_spike_trains_to_txt(trains, path, separator=sep, precision=p)
+            if ncom:
+                lines = open(path).read().split('\n')[:-1]
+                out = [com + ' c']
+                for l in lines:
+                    out += [l, com + 'x']
+                open(path, 'w').write('\n'.join(out) + '\n')
+            r = spk.load_spike_trains_from_txt(path, [0.0, 1e9], separator=sep, comment=com, ignore_empty_lines=ign)
+        finally:
+            if os.path.exists(path):
+                os.remove(path)
+        return [[float(len(r))]] + [list(t.spikes) for t in r]
     return _run_api(op, f)
 
 
@@ -376,6 +402,8 @@ EXACT = {
 
 
 def exact_fields(op, nfields):
+    if op in ('round_sci', 'save_load'):
+        return 'float-exact'
     if op in ('reconcile', 'filter_by_sync', 'merge', 'psth', 'time_series', 'poisson'):
         return tuple(range(nfields))
     return EXACT.get(op, ())
